@@ -217,6 +217,7 @@ func (c20) Plan(tier string, seed int64) []core.Scenario {
 		out = append(out, core.Scenario{Kind: "retry-outage", N: map[string]int{"rk": []int{0, 4}[i]}, S: map[string]string{}})
 	}
 	out = append(out, core.Scenario{Kind: "close-live", N: map[string]int{"rk": 4}, S: map[string]string{}})
+	out = append(out, core.Scenario{Kind: "after-failed-calls", N: map[string]int{"rk": 0, "n": 12}, S: map[string]string{}})
 	out = append(out, core.Scenario{Kind: "async-consumer", N: map[string]int{"rk": 0}, S: map[string]string{}})
 	out = append(out, core.Scenario{Kind: "two-clients", N: map[string]int{"rk": 0}, S: map[string]string{}})
 	// many small calls in quick succession from several goroutines: the upload and the RPC request of a call
@@ -419,7 +420,7 @@ func (c20) JudgeRaces() bool { return true }
 
 func (c20) Run(sc core.Scenario) core.Result {
 	r := core.NewR(sc)
-	if sc.Kind == "retry-outage" || sc.Kind == "close-live" || sc.Kind == "async-consumer" || sc.Kind == "two-clients" {
+	if sc.Kind == "retry-outage" || sc.Kind == "close-live" || sc.Kind == "async-consumer" || sc.Kind == "two-clients" || sc.Kind == "after-failed-calls" {
 		c20Special(sc, r)
 		return r.Result()
 	}
